@@ -45,6 +45,7 @@ type pipeGen struct {
 	// weights
 	wSingle, wMulti, wPing, wAuth, wReject, wQuit int
 	maxMultiKeys                                 int
+	errFrag                                      int // 1 in errFrag split requests gets one fragment answered with an error (0 = never)
 }
 
 func (g *pipeGen) ownerIdx(slot int) int {
@@ -127,6 +128,14 @@ func (g *pipeGen) multi() *PReq {
 			r.Gates = append(r.Gates, gt)
 			r.Nodes = append(r.Nodes, g.ownerIdx(s))
 		}
+	}
+	if g.errFrag > 0 && g.rng.Intn(g.errFrag) == 0 {
+		// one fragment is answered with an error: the whole request must be
+		// answered with one error, whatever arrives before or after it
+		bad := order[g.rng.Intn(len(order))]
+		pl := g.script.Plan(bySlot[bad][0])
+		pl.Act = func(*BReq) Action { return Action{Reply: ErrReply("WRONGTYPE Operation against a key holding the wrong kind of value")} }
+		r.ExpectErr = true
 	}
 	switch g.rng.Intn(3) {
 	case 0:
@@ -362,4 +371,34 @@ func expDesc(r *PReq) string {
 		return "an error reply"
 	}
 	return Q(r.Expect)
+}
+
+
+// deepPipeline sends n GETs on one connection: the first one is gated on its
+// node, all others go to other nodes and complete at once, so that n-1
+// completed replies pile up behind the head.
+func deepPipeline(env *Env, script *Script, rng *rand.Rand, n int) (*Client, []*PReq, *Gate, error) {
+	cl, err := env.Dial()
+	if err != nil {
+		return nil, nil, nil, err
+	}
+	headSlot := rng.Intn(16384)
+	headNode := env.T.Owner(headSlot)
+	var p []*PReq
+	tok := newToken("d")
+	k := Key(headSlot, tok)
+	gate := NewGate()
+	script.Plan(k).Gate = gate
+	p = append(p, &PReq{Kind: "get", Token: tok, Keys: []string{k}, Bytes: Req("GET", k), Expect: BulkReply([]byte("v:" + k)), Gates: []*Gate{gate}})
+	for len(p) < n {
+		s := rng.Intn(16384)
+		if env.T.Owner(s) == headNode {
+			continue
+		}
+		tok := newToken("d")
+		k := Key(s, tok)
+		p = append(p, &PReq{Kind: "get", Token: tok, Keys: []string{k}, Bytes: Req("GET", k), Expect: BulkReply([]byte("v:" + k))})
+	}
+	cl.Send(concatReqs(p))
+	return cl, p, gate, nil
 }
